@@ -376,8 +376,11 @@ func runCase(e *Env, idx int, c *Case, limit time.Duration) (*Out, error) {
 			rest = append(rest, a.Updates[ui+1:]...)
 			lvl := LevelOf(s.Opts.Levels, u.Name)
 			var baseS, afterS, baseSrc string
+			// a package the manifest installs twice (plainly and through an npm alias) has no single "version it resolves
+			// to": the resolution-based base is undefined for it (its requirement strings are judged if they are versions)
+			twice := s.declaredTwice(u.Name)
 			bg, berr := resolveReqs(applyUpdates(s.Eco, s.Manifest, rest))
-			if berr == nil {
+			if berr == nil && !twice {
 				if v, ok, _ := resolvedVersion(bg, u.Name, u.Alias); ok {
 					baseS, baseSrc = v, "graph"
 				}
@@ -386,7 +389,7 @@ func runCase(e *Env, idx int, c *Case, limit time.Duration) (*Out, error) {
 			if ag == nil {
 				ag, _ = resolveReqs(applyUpdates(s.Eco, s.Manifest, a.Updates))
 			}
-			if ag != nil {
+			if ag != nil && !twice {
 				if v, ok, _ := resolvedVersion(ag, u.Name, u.Alias); ok {
 					afterS = v
 				}
@@ -710,6 +713,9 @@ func runCase(e *Env, idx int, c *Case, limit time.Duration) (*Out, error) {
 			u := x.u
 			lvl := LevelOf(s.Opts.Levels, u.Name)
 			var baseS, afterS string
+			if s.declaredTwice(u.Name) {
+				continue
+			}
 			if bg, err := resolveReqs(applyUpdates(s.Eco, s.Manifest, rest)); err == nil {
 				if v, ok, _ := resolvedVersion(bg, u.Name, u.Alias); ok {
 					baseS = v
